@@ -187,6 +187,15 @@ func (e *Eng) evalCallInner(st *State, call *ast.CallExpr) []*Val {
 						}
 					}
 				}
+				if ccs := e.callsiteClauses(key); len(ccs) > 0 {
+					env := e.specEnvFromState(st)
+					env["arg1"] = delta
+					e.bindArgTexts(env, call)
+					for _, cc := range ccs {
+						g := e.evalSpec(st, cc.Expr, env, e.oldEnv)
+						e.oblige(st, "callsite", shortKey(key)+" requires "+cc.Src, g.T, call.Pos())
+					}
+				}
 				t := e.info.TypeOf(u.X)
 				nv := scalar(e.define("a", "Int", e.wrap(t, fmt.Sprintf("(+ %s %s)", old.T, delta.T))), "Int", t)
 				e.assign(st, u.X, nv)
@@ -267,6 +276,7 @@ func (e *Eng) evalCallInner(st *State, call *ast.CallExpr) []*Val {
 			env[fmt.Sprintf("arg%d", i)] = a
 		}
 		env["nargs"] = scalar(fmt.Sprint(len(args)), "Int", nil)
+		e.bindArgTexts(env, call)
 		if recv != nil {
 			env["recv"] = recv
 		}
@@ -857,4 +867,12 @@ func (e *Eng) declPkg() string {
 		return e.pkg.PkgPath
 	}
 	return ""
+}
+
+// bindArgTexts binds argtextN to the source text of the N-th argument expression (a string constant): lets a clause
+// pin down WHICH variable an argument names (e.g. the closure's own parameter rather than a captured variable).
+func (e *Eng) bindArgTexts(env map[string]*Val, call *ast.CallExpr) {
+	for i, a := range call.Args {
+		env[fmt.Sprintf("argtext%d", i)] = scalar(e.strLit(e.srcFull(a)), "Str", types.Typ[types.String])
+	}
 }
